@@ -546,7 +546,35 @@ func genParseMain(args []string) {
 			emit(b, "sequence")
 		}
 	}
+	// every operator between every pair of operand forms (the grammar admits only some of them)
+	forms := []string{`1`, `-1.5`, `'s'`, `"s"`, `true`, `null`, `@.a`, `$.a`, `@`, `$`, `@.a.f1()`, `$[0]`, `@[*]`}
+	for _, op := range []string{"==", "!=", "<", "<=", ">", ">=", "=~"} {
+		for _, l := range forms {
+			for _, r := range forms {
+				if op == "=~" {
+					r = "/a/"
+				}
+				emit("$[?("+l+op+r+")]", "operator-matrix")
+				if op == "=~" {
+					break
+				}
+			}
+		}
+	}
 	for i := 0; i < *n; i++ {
+		if i%10 == 9 {
+			// invalid UTF-8 in front of a syntax error with little text after it
+			base := "$.a"
+			if len(paths) > 0 {
+				base = paths[g.rnd.Intn(len(paths))]
+			}
+			bs := []byte(base)
+			cut := g.rnd.Intn(len(bs) + 1)
+			bad := [][]byte{{0xff}, {0xe9}, {0xc3}, {0xe2, 0x82}, {0xf0, 0x9f}, {0x80}, {0xff, 0xfe}}[g.rnd.Intn(7)]
+			tail := []string{"(", "[", "]", ")", "", " x", "'"}[g.rnd.Intn(7)]
+			emit(string(bs[:cut])+string(bad)+tail, "invalid-utf8-then-error")
+			continue
+		}
 		switch i % 8 {
 		case 0, 1:
 			emit(g.sentence(), "grammar-walk")
